@@ -21,7 +21,7 @@ type C02Case struct {
 	Doc   map[string]any `json:"doc"`
 	Env   Envelope       `json:"env,omitempty"` // irrelevant options / table representation / repeated execution
 	Items []SelItem      `json:"items"`
-	Star  int            `json:"star"` // 0 none, 1 leading *, 2 trailing *
+	Star  int            `json:"star"`            // 0 none, 1 leading *, 2 trailing *
 	Scale *Scale         `json:"scale,omitempty"` // large table: t is expanded from the rows of the document by this recipe before anything is computed
 	Where *sq.E          `json:"where,omitempty"`
 	SQL   string         `json:"sql"`
